@@ -20,26 +20,33 @@ ASSUMPTIONS = ["alphabet values keep |sum|a|^2 - 1| either < 1e-9 or > 1e-2: the
 BOUNDS = {"quick": {"history_depth": 3, "dicke_n": 8, "flip_n": 6}, "thorough": {"history_depth": 5, "dicke_n": 10, "flip_n": 8}}
 S2 = 1 / np.sqrt(2)
 SYM = {n: sympy.Symbol(n) for n in "abc"}
+SYM_REAL = {"a": sympy.Symbol("a", real=True), "b": sympy.Symbol("b", positive=True), "c": sympy.Symbol("c", real=True)}
 
 ROOTS = [["n", [1, 0]], ["n", [0, 0, 0, 1]], ["n", [S2, S2]], ["n", [S2, [0, S2]]], ["n", [0.6, 0.8]], ["n", [0.5, 0.5, 0.5, 0.5]], ["n", [0.6, 0, 0, [0, 0.8]]], ["n", [0.5, [0, 0.5], [0, -0.5], 0.5]],
          ["s", ["a", "b"]], ["s", ["a", 0.6]], ["s", ["a", 0.5, "b", 0.5]],
          # numeric column vectors (shape (2^n, 1)): what a total bind returns, and what a user may pass
-         ["ncol", [0.6, 0.8]], ["ncol", [0.5, [0, 0.5], [0, -0.5], 0.5]]]
+         ["ncol", [0.6, 0.8]], ["ncol", [0.5, [0, 0.5], [0, -0.5], 0.5]],
+         # symbolic roots over symbols with assumptions (real / positive), and a mixed root with an imaginary numeric entry
+         ["sr", ["a", "b"]], ["sr", ["a", 0.6]], ["s", ["a", [0, 0.5], "b", 0.5]]]
 VALUES = [0, 1, 0.6, 0.8, 0.5, S2, [0, S2], [0, -S2], -0.6, "a", "c"]
 BIND_VALUES = [0.5, 0.1, 0.9, 0.6, "c"]
+
+
+_ACTIVE = [SYM]
 
 
 def val(v):
     if isinstance(v, list):
         return complex(v[0], v[1])
     if isinstance(v, str):
-        return SYM[v]
+        return _ACTIVE[0][v]
     return v
 
 
 def mk_root(root):
     from orquestra.quantum.wavefunction import Wavefunction
     kind, vec = root
+    _ACTIVE[0] = SYM_REAL if kind == "sr" else SYM     # "sr": the same vectors over symbols that carry assumptions
     vals = [val(v) for v in vec]
     if kind == "n":
         return Wavefunction(np.array(vals, dtype=complex)), list(map(complex, vals))
@@ -105,7 +112,7 @@ def events_for(case):
     if n == 4:
         evs += [["setslice", [0, None, 2], [S2, S2]], ["setslice", [0, None, 2], [0.6, 0.6]]]
     evs.append(["flip"])
-    if case["root"][0] == "s":
+    if case["root"][0] in ("s", "sr"):
         for va in BIND_VALUES + [None]:
             for vb in BIND_VALUES[:3] + [None]:
                 m = {}
@@ -125,9 +132,23 @@ def step(case):
         return {"ok": False, "msg": "root violates the invariant: " + why, "sig": "root", "key": None}
     n_acc = n_rej = 0
 
-    def observe(w, when):
+    def observe(w, when, final=False):
         """every state along the history is QUERIED (so state cached by a query cannot go stale unnoticed)"""
         sn = snapshot(w)
+        if final and not all(isinstance(e, list) for e in sn):
+            # still symbolic (checked in the state a history ends in; every intermediate state is the end of a shorter history of the search): probabilities are the squared MAGNITUDES of the entries - checked at a complex assignment of the symbols
+            cvals = {"a": 0.3 + 0.4j, "b": -0.5 + 0.2j, "c": 0.1 - 0.7j}
+            asg = {s_: (abs(cvals.get(s_.name, 0.6)) if (s_.is_real or s_.is_positive) else cvals.get(s_.name, 0.3 + 0.4j)) for s_ in w.free_symbols}
+            try:
+                probs = list(np.asarray(w.get_probabilities(), dtype=object).reshape(-1))
+            except Exception as e:  # noqa: BLE001
+                return {"ok": False, "msg": "get_probabilities %s raised %s on a symbolic wavefunction" % (when, type(e).__name__), "sig": "probabilities:symbolic-exception", "key": None}
+            for i in range(len(sn)):
+                amp = complex(sympy.sympify(w[i] if not isinstance(w[i], np.ndarray) else w[i].reshape(-1)[0]).subs(asg))
+                got = complex(sympy.sympify(probs[i]).subs(asg))
+                if abs(got - abs(amp) ** 2) > 1e-9:
+                    return {"ok": False, "msg": "get_probabilities %s: entry %d is %s, not the squared magnitude of the amplitude %s" % (when, i, probs[i], w[i]), "expected": abs(amp) ** 2,
+                            "observed": str(got), "sig": "probabilities:symbolic", "key": None}
         if all(isinstance(e, list) for e in sn):
             amps = np.array([complex(e[0], e[1]) for e in sn])
             p = np.asarray(w.get_probabilities(), dtype=float).reshape(-1)
@@ -174,7 +195,7 @@ def step(case):
                             "sig": "setitem:wrong-write", "key": None}
                 model = new
         elif ev[0] == "bind":
-            m = {SYM[k]: val(v) for k, v in ev[1].items()}
+            m = {_ACTIVE[0][k]: val(v) for k, v in ev[1].items()}
             new = [v.subs(m, simultaneous=True) if isinstance(v, sympy.Basic) else v for v in model]
             new = [complex(v) if (isinstance(v, sympy.Basic) and not v.free_symbols) else v for v in new]
             valid = model_valid(new)
@@ -218,6 +239,9 @@ def step(case):
         if bad:
             return bad
     # state-level observations
+    bad = observe(wf, "in the final state", final=True)
+    if bad:
+        return bad
     snap = snapshot(wf)
     if all(isinstance(e, list) for e in snap):
         amps = np.array([complex(e[0], e[1]) for e in snap])
@@ -324,8 +348,13 @@ def io_case(case):
         try:
             if ev[0] == "set":
                 wf[ev[1]] = val(ev[2])
+            elif ev[0] == "setslice":
+                wf[slice(*ev[1])] = [val(v) for v in ev[2]]
+            elif ev[0] == "flip":
+                from orquestra.quantum.wavefunction import flip_wavefunction
+                wf = flip_wavefunction(wf)
             elif ev[0] == "bind":
-                wf = wf.bind({SYM[k]: val(v) for k, v in ev[1].items()})
+                wf = wf.bind({_ACTIVE[0][k]: val(v) for k, v in ev[1].items()})
         except Exception:  # noqa: BLE001
             pass
     snap = snapshot(wf)
@@ -350,7 +379,39 @@ def io_case(case):
     return {"ok": True, "nt": True, "ops": 4, "out": "io"}
 
 
-FUNCS = {"histories": step, "constructor": ctor_case, "dicke": dicke_case, "flip": flip_case, "save_load": io_case}
+LIB_TOL = 1.001e-5   # the object's own rule: np.isclose(sum |a|^2, 1.0) = within 1e-8 + 1e-5
+
+
+def nudge_case(case):
+    """{'root': numeric vector, 'moves': [[index, delta] ...] repeated 'rounds' times}: a run of small same-direction changes, each of which is within
+    the tolerance relative to the state before it: the OBJECT (not the step) must stay normalised, so the step that would carry the total past the
+    tolerance is refused and leaves the object as it was"""
+    wf, model = mk_root(case["root"])
+    k = 0
+    for rnd in range(case["rounds"]):
+        for i, d in case["moves"]:
+            cur = complex(np.asarray(wf[i]).reshape(-1)[0])
+            new = cur + complex(*d) if isinstance(d, list) else cur + d
+            before = snapshot(wf)
+            try:
+                wf[i] = new
+                raised = False
+            except Exception:  # noqa: BLE001
+                raised = True
+            k += 1
+            tot = float(sum(abs(complex(np.asarray(wf[j]).reshape(-1)[0])) ** 2 for j in range(len(wf))))
+            if abs(tot - 1) > LIB_TOL * 1.2:
+                return {"ok": False, "msg": "after %d small assignments (each close to the state before it) the squared magnitudes sum to %.9f" % (k, tot), "expected": "|sum - 1| <= %g" % LIB_TOL,
+                        "observed": tot, "sig": "nudge:drift", "ops": k}
+            if raised and snapshot(wf) != before:
+                return {"ok": False, "msg": "a refused small assignment left the object modified", "sig": "nudge:not-restored", "ops": k}
+            p = np.asarray(wf.get_probabilities(), dtype=float).reshape(-1)
+            if abs(p.sum() - tot) > 1e-12:
+                return {"ok": False, "msg": "get_probabilities does not follow the amplitudes", "sig": "nudge:probabilities", "ops": k}
+    return {"ok": True, "nt": True, "ops": k, "out": "rounds%d" % case["rounds"]}
+
+
+FUNCS = {"nudges": nudge_case, "histories": step, "constructor": ctor_case, "dicke": dicke_case, "flip": flip_case, "save_load": io_case}
 
 
 def run(run):
@@ -371,7 +432,10 @@ def run(run):
                     (["a", "b", "c"], False), (["a", 0.5, "b", 0.5], True), (["a", [0, 1.1]], False)):
         C.append({"kind": "s", "vec": vec, "valid": ok})
         C.append({"kind": "l", "vec": vec, "valid": ok})
-    secs = [Section("constructor", C, ctor_case, desc="constructor accepts exactly the power-of-two, normalised (or not-yet-exceeding) vectors")]
+    NG = [{"root": r, "moves": mv, "rounds": rounds} for r in (["n", [0.6, 0.8]], ["ncol", [0.6, 0.8]], ["n", [0.5, 0.5, 0.5, 0.5]], ["n", [0.6, 0, 0, [0, 0.8]]])
+          for mv in ([[0, 3e-6]], [[0, -3e-6]], [[1, 2e-6], [0, 2e-6]], [[-1, [0, 3e-6]]], [[0, 3e-6], [1, -1e-6]], [[0, 8e-6]], [[0, 4e-7]]) for rounds in (12, 40)]
+    secs = [Section("nudges", NG, nudge_case, desc="runs of 12 / 40 small same-direction assignments (each within tolerance of the state before it): the object stays normalised"),
+            Section("constructor", C, ctor_case, desc="constructor accepts exactly the power-of-two, normalised (or not-yet-exceeding) vectors")]
     N = 10 if thorough else 8
     D = [{"n": n, "k": k} for n in range(1, N + 1) for k in range(-1, n + 2)] + [{"n": 3, "k": 1.0}, {"n": 3, "k": 1.5}]
     secs.append(Section("dicke", D, dicke_case, desc="dicke_state(n,k) for all n<=%d, k in -1..n+1" % N))
